@@ -1,6 +1,6 @@
 (* Extraction of the argument-pipeline models.  ExtrOcamlBasic only. *)
 From Coq Require Import ExtrOcamlBasic.
-From PV Require Import Args.Settings Args.WcollFile Hostlist.HLDefs.
+From PV Require Import Args.Settings Args.WcollFile Args.Assemble Hostlist.HLDefs.
 Extraction Language OCaml.
 Set Extraction KeepSingleton.
-Extraction "args_model.ml" effective string_to_int Settings.atoi read_wcoll HLDefs.push HLDefs.hl_empty HLDefs.iter_all.
+Extraction "args_model.ml" effective string_to_int Settings.atoi read_wcoll read_stream Assemble.assemble Assemble.list_split HLDefs.push HLDefs.hl_empty HLDefs.iter_all HLDefs.reexpand.
